@@ -39,7 +39,7 @@ type PeerOpts struct {
 	// Identity (libp2p key) to reuse; generated when nil.
 	PrivKey crypto.PrivKey
 	// Cache / Keystore decorators (C05).
-	WrapCache    func(cache.Interface) cache.Interface
+	Cache        cache.Interface
 	KeystoreDS   ds.Batching
 	NoOrbit      bool // adversary / block holder only
 	DirOverride  string
@@ -181,8 +181,8 @@ func (p *Peer) Start() error {
 		}
 		opts.Keystore = ks
 	}
-	if p.Opts.WrapCache != nil {
-		opts.Cache = p.Opts.WrapCache(nil)
+	if p.Opts.Cache != nil {
+		opts.Cache = p.Opts.Cache
 	}
 	db, err := orbitdb.NewOrbitDB(p.ctx, p.API, opts)
 	if err != nil {
@@ -235,6 +235,12 @@ func (p *Peer) closeNode() {
 	if p.Node != nil {
 		_ = p.Node.Close()
 	}
+}
+
+// Destroy stops the instance and the kubo node of the peer.
+func (p *Peer) Destroy() {
+	p.Stop()
+	p.closeNode()
 }
 
 // Running reports whether the peer has a live orbit-db instance.
